@@ -1,3 +1,131 @@
-pub fn cmp(_args: &[&str]) -> String { "TODO".into() }
-pub fn ast(_args: &[&str]) -> String { "TODO".into() }
-pub fn enc_ctl(_args: &[&str]) -> String { "TODO".into() }
+//! CMP / AST (the compiler) and ENC CP|UF|IN (control messages)
+use crate::{hex, unhex};
+use portus::lang::{Bin, Reg, Type};
+use portus::serialize::{self, changeprog, install, update_field};
+
+pub fn parse_reg(s: &str) -> Option<Reg> {
+    let (k, rest) = s.split_at(1);
+    let vol = rest.ends_with('v');
+    let num = rest.trim_end_matches(|c| c == 'v' || c == 'n');
+    match k {
+        "C" => Some(Reg::Control(num.parse().ok()?, Type::None, vol)),
+        "R" => Some(Reg::Report(num.parse().ok()?, Type::None, vol)),
+        "I" => Some(Reg::Implicit(rest.parse().ok()?, Type::None)),
+        "L" => Some(Reg::Local(rest.parse().ok()?, Type::None)),
+        "P" => Some(Reg::Primitive(rest.parse().ok()?, Type::None)),
+        "T" => Some(Reg::Tmp(rest.parse().ok()?, Type::None)),
+        "N" => Some(Reg::ImmNum(rest.parse().ok()?)),
+        "B" => Some(Reg::ImmBool(rest == "1")),
+        "X" => Some(Reg::None),
+        _ => None,
+    }
+}
+
+fn parse_updates(s: &str) -> Option<Vec<(Reg, u64)>> {
+    if s == "-" {
+        return Some(vec![]);
+    }
+    s.split(',')
+        .map(|t| {
+            let (r, v) = t.split_once('=')?;
+            Some((parse_reg(r)?, v.parse().ok()?))
+        })
+        .collect()
+}
+
+const PALETTE: &str = "(def (Report (x 0)) (c 0))
+(when (> (+ 1 2) (- 4 3))
+  (:= Report.x (/ (* 1 2) (max 1 (min 2 (wrapped_max 3 4)))))
+  (:= Report.x (ewma 2 3))
+  (:= c (if (< 1 2) 5))
+  (:= c (!if (== 1 2) 6)))";
+
+/// a `Bin` built from a spec: ops are looked up by their `Debug` name in a compiled palette program
+fn build_bin(events: &str, instrs: &str) -> Option<Bin> {
+    let (pal, _) = portus::lang::compile(PALETTE.as_bytes(), &[]).ok()?;
+    let mut bin = pal.clone();
+    bin.events.clear();
+    bin.instrs.clear();
+    if events != "-" {
+        for e in events.split(',') {
+            let f: Vec<u32> = e.split('.').map(|x| x.parse().ok()).collect::<Option<_>>()?;
+            if f.len() != 4 {
+                return None;
+            }
+            let mut ev = pal.events[0].clone();
+            ev.flag_idx = f[0];
+            ev.num_flag_instrs = f[1];
+            ev.body_idx = f[2];
+            ev.num_body_instrs = f[3];
+            bin.events.push(ev);
+        }
+    }
+    if instrs != "-" {
+        for i in instrs.split(',') {
+            let p: Vec<&str> = i.split(':').collect();
+            if p.len() != 4 {
+                return None;
+            }
+            let mut ins = pal.instrs.iter().find(|x| format!("{:?}", x.op) == p[0])?.clone();
+            ins.res = parse_reg(p[1])?;
+            ins.left = parse_reg(p[2])?;
+            ins.right = parse_reg(p[3])?;
+            bin.instrs.push(ins);
+        }
+    }
+    Some(bin)
+}
+
+pub fn enc_ctl(args: &[&str]) -> String {
+    let r = match args.get(0).copied() {
+        Some("CP") if args.len() == 5 => {
+            let (sid, uid, nf) = (args[1].parse().ok(), args[2].parse().ok(), args[3].parse().ok());
+            match (sid, uid, nf, parse_updates(args[4])) {
+                (Some(sid), Some(uid), Some(nf), Some(fields)) => serialize::serialize(&changeprog::Msg {
+                    sid,
+                    program_uid: uid,
+                    num_fields: nf,
+                    fields,
+                }),
+                _ => return "BADARG".into(),
+            }
+        }
+        Some("UF") if args.len() == 4 => {
+            let (sid, nf) = (args[1].parse().ok(), args[2].parse::<u8>().ok());
+            match (sid, nf, parse_updates(args[3])) {
+                (Some(sid), Some(nf), Some(fields)) => serialize::serialize(&update_field::Msg {
+                    sid,
+                    num_fields: nf,
+                    fields,
+                }),
+                _ => return "BADARG".into(),
+            }
+        }
+        Some("IN") if args.len() == 7 => {
+            let v: Option<Vec<u32>> = args[1..5].iter().map(|s| s.parse().ok()).collect();
+            match (v, build_bin(args[5], args[6])) {
+                (Some(v), Some(bin)) => serialize::serialize(&install::Msg {
+                    sid: v[0],
+                    program_uid: v[1],
+                    num_events: v[2],
+                    num_instrs: v[3],
+                    instrs: bin,
+                }),
+                _ => return "BADARG".into(),
+            }
+        }
+        _ => return "BADARG".into(),
+    };
+    match r {
+        Ok(b) => format!("OK {}", hex(&b)),
+        Err(_) => "ERR".into(),
+    }
+}
+
+pub fn cmp(_args: &[&str]) -> String {
+    let _ = unhex;
+    "TODO".into()
+}
+pub fn ast(_args: &[&str]) -> String {
+    "TODO".into()
+}
